@@ -7,7 +7,11 @@
 (*  the answer to it is awaited: maximal runs form a burst of 2..MaxBurst     *)
 (*  requests.  For the specification a burst is just its requests in queue    *)
 (*  order - the steps are the ordinary ones - only the harness observes it    *)
-(*  differently: one look at ledger and notifications after the whole burst)  *)
+(*  differently: one look at ledger and notifications after the whole burst;  *)
+(*  `hang` = 1|2, chosen when the behaviour ends: the harness sends the        *)
+(*  trailing open orders without waiting for their answers and then drops the  *)
+(*  last request sender while they are inside the latency window - 1: at once, *)
+(*  2: after the exchange handled them; not a step of the specification)       *)
 (* The harness replays `init` + the `req` of every element into the real     *)
 (* exchange; what the implementation answers is judged by Trace_MockExchange *)
 (* (the `out`/`id` printed here are only what the specification expects).     *)
@@ -21,9 +25,9 @@
 (*         implementation test per pair of arms x balance situation.          *)
 EXTENDS MockExchange, Json
 CONSTANTS MaxLen, OrderSubsets
-VARIABLES init, hist, bq, done
+VARIABLES init, hist, bq, hang, done
 
-gvars == <<vars, init, hist, bq, done>>
+gvars == <<vars, init, hist, bq, hang, done>>
 
 MaxBurst == 4
 \* the length of the burst the latest request belongs to
@@ -50,7 +54,7 @@ GInit == /\ fee \in FeePcts
          /\ res = NoRes
          /\ init = [fee |-> fee, lat |-> lat, bal |-> bal, open |-> SetToSeq(orders), up |-> up]
          /\ hist = <<>>
-         /\ bq = <<>>
+         /\ bq = <<>> /\ hang = 0
          /\ done = FALSE
 
 GStep == /\ ~done /\ Len(hist) < MaxLen
@@ -58,7 +62,7 @@ GStep == /\ ~done /\ Len(hist) < MaxLen
                Serve(r, id, tt, "offline")
          /\ hist' = Append(hist, last')
          /\ bq' = Append(bq, 0)
-         /\ UNCHANGED <<init, done>>
+         /\ UNCHANGED <<init, hang, done>>
 
 \* most requests are market orders on listed instruments (the arms with a ledger effect); the
 \* rest is spread over everything a client can send.  Every draw is bound through a singleton
@@ -77,7 +81,7 @@ GStepR == /\ ~done /\ Len(hist) < MaxLen
                 /\ \E id \in FreshIds : \E tt \in ClockChoices(r) : Serve(r, id, tt, "offline")
                 /\ bq' = Append(bq, IF b = 1 /\ MayJoin(r) THEN 1 ELSE 0)
           /\ hist' = Append(hist, last')
-          /\ UNCHANGED <<init, done>>
+          /\ UNCHANGED <<init, hang, done>>
 
 \* --- pairs: two requests queued together ---
 \* every market order and every query; one limit order and one cancel stand for the others (their
@@ -96,22 +100,27 @@ GInitP == /\ fee \in FeePcts
           /\ res = NoRes
           /\ init = [fee |-> fee, lat |-> lat, bal |-> bal, open |-> SetToSeq(orders), up |-> up]
           /\ hist = <<>>
-          /\ bq = <<>>
+          /\ bq = <<>> /\ hang = 0
           /\ done = FALSE
 
 GStepP == /\ ~done /\ Len(hist) < MaxLen
           /\ \E r \in PairReqs : \E id \in FreshIds : \E tt \in ClockChoices(r) : Serve(r, id, tt, "offline")
           /\ hist' = Append(hist, last')
           /\ bq' = Append(bq, IF Len(hist) = 0 THEN 0 ELSE 1)
-          /\ UNCHANGED <<init, done>>
+          /\ UNCHANGED <<init, hang, done>>
 
-GFinish == /\ ~done /\ Len(hist) = MaxLen
-           /\ done' = TRUE
-           /\ UNCHANGED <<vars, init, hist, bq>>
+GFinishWith(h) == /\ ~done /\ Len(hist) = MaxLen
+                  /\ done' = TRUE
+                  /\ hang' = h
+                  /\ UNCHANGED <<vars, init, hist, bq>>
+GFinish  == GFinishWith(0)
+GFinishR == \E h \in {RandomElement(0..2)} : GFinishWith(h)
+\* a pair that ends with an open order: also with a hang-up after it (both ways, alternating)
+GFinishP == Len(hist) = MaxLen /\ \E h \in {0} \cup (IF hist[Len(hist)].req.op = "open" THEN {1 + (Len(trades) % 2)} ELSE {}) : GFinishWith(h)
 
 GSpec  == GInit /\ [][GStep \/ GFinish]_gvars
-GSpecR == GInit /\ [][GStepR \/ GFinish]_gvars
-GSpecP == GInitP /\ [][GStepP \/ GFinish]_gvars
+GSpecR == GInit /\ [][GStepR \/ GFinishR]_gvars
+GSpecP == GInitP /\ [][GStepP \/ GFinishP]_gvars
 
-Emit == done => PrintT(<<"SCN", ToJson([init |-> init, evs |-> hist, bq |-> bq])>>)
+Emit == done => PrintT(<<"SCN", ToJson([init |-> init, evs |-> hist, bq |-> bq, hang |-> hang])>>)
 =============================================================================
